@@ -259,32 +259,33 @@ def readFull (t : T) (K : Kernel) : Map (List FR) :=
   (K.filter (fun p => !t.ours p.1 && p.2.any (fun r => !r.isForeign))).map (fun p =>
     (p.1, p.2.map (fun r => if r.isForeign then FR.dash else FR.a p.1 r)))
 
+/-- One iteration of the first loop of `loadDataplaneState` (a chain we think we programmed). -/
+def T.knownStep (dp : Map (List String)) (t : T) (c : String) : T :=
+  if t.dirty.contains c || t.dirtyIA.contains c then t
+  else
+    if !t.ours c then
+      if ((t.ins.get c).getD []).isEmpty && ((t.app.get c).getD []).isEmpty then
+        if ((dp.get c).getD []).any (· != "") then { t with dirtyIA := sAdd t.dirtyIA c } else t
+      else
+        if dp.get c != some (t.expectedIA c (numEmpty ((dp.get c).getD []))) then { t with dirtyIA := sAdd t.dirtyIA c } else t
+    else
+      if dp.get c != some ((t.dpHashes.get c).getD []) then { t with dirty := sAdd t.dirty c } else t
+
 /-- First loop of `loadDataplaneState`: chains we think we programmed. -/
 def T.loadCheckKnown (t : T) (dp : Map (List String)) : T :=
-  (sortS t.dpHashes.keys.eraseDups).foldl (fun t c =>
-    let expected := (t.dpHashes.get c).getD []
-    if t.dirty.contains c || t.dirtyIA.contains c then t
-    else
-      let dph := dp.get c
-      if !t.ours c then
-        let i := (t.ins.get c).getD []
-        let a := (t.app.get c).getD []
-        if i.isEmpty && a.isEmpty then
-          if (dph.getD []).any (· != "") then { t with dirtyIA := sAdd t.dirtyIA c } else t
-        else
-          if dph != some (t.expectedIA c (numEmpty (dph.getD []))) then { t with dirtyIA := sAdd t.dirtyIA c } else t
-      else
-        if dph != some expected then { t with dirty := sAdd t.dirty c } else t) t
+  (sortS t.dpHashes.keys.eraseDups).foldl (T.knownStep dp) t
+
+/-- One iteration of the second loop of `loadDataplaneState` (a chain found in the dataplane). -/
+def T.unknownStep (dp : Map (List String)) (t : T) (c : String) : T :=
+  if t.dirty.contains c || t.dirtyIA.contains c then t
+  else if t.dpHashes.has c then t
+  else if !t.ours c then
+    if ((dp.get c).getD []).any (· != "") then { t with dirtyIA := sAdd t.dirtyIA c } else t
+  else { t with dirty := sAdd t.dirty c }
 
 /-- Second loop of `loadDataplaneState`: chains that should not be there. -/
 def T.loadCheckUnknown (t : T) (dp : Map (List String)) : T :=
-  (sortS dp.keys.eraseDups).foldl (fun t c =>
-    let hs := (dp.get c).getD []
-    if t.dirty.contains c || t.dirtyIA.contains c then t
-    else if t.dpHashes.has c then t
-    else if !t.ours c then
-      if hs.any (· != "") then { t with dirtyIA := sAdd t.dirtyIA c } else t
-    else { t with dirty := sAdd t.dirty c }) t
+  (sortS dp.keys.eraseDups).foldl (T.unknownStep dp) t
 
 /-- `loadDataplaneState` after a successful iptables-save. -/
 def T.load (t : T) (K : Kernel) : T :=
